@@ -380,7 +380,8 @@ pub fn run(p: &[String]) -> Vec<String> {
                     let c = ws.get_cell_mut((1, row));
                     if kind == "text" { c.set_value_string(text); continue; }
                     let chars: Vec<char> = text.chars().collect();
-                    let cut = if kind == "rich2" { (chars.len() + 1) / 2 } else { chars.len() };
+                    let given_cut: i64 = if p.len() > 5 { p[if k == 1 { 5 } else { 6 }].parse().unwrap_or(-1) } else { -1 };
+                    let cut = if kind == "rich2" { if given_cut >= 0 { (given_cut as usize).min(chars.len()) } else { (chars.len() + 1) / 2 } } else { chars.len() };
                     let parts: Vec<String> = if kind == "rich2" { vec![chars[..cut].iter().collect(), chars[cut..].iter().collect()] } else { vec![text.clone()] };
                     let mut rt = umya_spreadsheet::RichText::default();
                     for part in parts {
@@ -413,6 +414,8 @@ pub fn run(p: &[String]) -> Vec<String> {
             // formula anchor child : a real package whose sheet part carries a shared formula block, loaded by the real reader
             use std::io::{Read, Write};
             let (formula, anchor, child) = (unhex(&p[1]), unhex(&p[2]), unhex(&p[3]));
+            // the block's ref attribute: given, or the rectangle anchor:child
+            let given_ref = if p.len() > 4 { unhex(&p[4]) } else { String::new() };
             let book = umya_spreadsheet::new_file();
             let mut buf: Vec<u8> = Vec::new();
             umya_spreadsheet::writer::xlsx::write_writer(&book, &mut buf).unwrap();
@@ -421,11 +424,11 @@ pub fn run(p: &[String]) -> Vec<String> {
             let esc = formula.replace('&', "&amp;").replace('<', "&lt;").replace('>', "&gt;");
             let rownum = |s: &str| s.trim_start_matches(|c: char| c.is_ascii_alphabetic()).to_string();
             let cells = if anchor == child {
-                format!("<row r=\"{}\"><c r=\"{}\"><f t=\"shared\" ref=\"{}\" si=\"0\">{}</f></c></row>", rownum(&anchor), anchor, anchor, esc)
+                format!("<row r=\"{}\"><c r=\"{}\"><f t=\"shared\" ref=\"{}\" si=\"0\">{}</f></c></row>", rownum(&anchor), anchor, if given_ref.is_empty() { anchor.clone() } else { given_ref.clone() }, esc)
             } else if rownum(&anchor) == rownum(&child) {
-                format!("<row r=\"{}\"><c r=\"{}\"><f t=\"shared\" ref=\"{}:{}\" si=\"0\">{}</f></c><c r=\"{}\"><f t=\"shared\" si=\"0\"/></c></row>", rownum(&anchor), anchor, anchor, child, esc, child)
+                format!("<row r=\"{}\"><c r=\"{}\"><f t=\"shared\" ref=\"{}\" si=\"0\">{}</f></c><c r=\"{}\"><f t=\"shared\" si=\"0\"/></c></row>", rownum(&anchor), anchor, if given_ref.is_empty() { format!("{}:{}", anchor, child) } else { given_ref.clone() }, esc, child)
             } else {
-                format!("<row r=\"{}\"><c r=\"{}\"><f t=\"shared\" ref=\"{}:{}\" si=\"0\">{}</f></c></row><row r=\"{}\"><c r=\"{}\"><f t=\"shared\" si=\"0\"/></c></row>", rownum(&anchor), anchor, anchor, child, esc, rownum(&child), child)
+                format!("<row r=\"{}\"><c r=\"{}\"><f t=\"shared\" ref=\"{}\" si=\"0\">{}</f></c></row><row r=\"{}\"><c r=\"{}\"><f t=\"shared\" si=\"0\"/></c></row>", rownum(&anchor), anchor, if given_ref.is_empty() { format!("{}:{}", anchor, child) } else { given_ref.clone() }, esc, rownum(&child), child)
             };
             for i in 0..zin.len() {
                 let mut f = zin.by_index(i).unwrap();
@@ -450,16 +453,18 @@ pub fn run(p: &[String]) -> Vec<String> {
         }
         // ---- C06
         "hyperlink_roundtrip" => {
-            // n : n cells A1..An each with its own external hyperlink; save, reload, report the cells whose target changed
+            // n kinds [cells] : n cells (the given ones, then A20, C1, ...) each with its own hyperlink; save, reload, report the cells whose target changed
             let n = u(&p[1]);
             let kinds: Vec<String> = if p.len() > 2 { unhex(&p[2]).split(',').map(|s| s.to_string()).collect() } else { vec![] };
-            let kind = |i: u32| kinds.get(i as usize - 1).map(|s| s.as_str()).unwrap_or("url").to_string();
-            let target = |i: u32| match kind(i).as_str() { "blank" => String::new(), "location" => format!("Sheet1!B{}", i), _ => format!("https://example.invalid/{}", i) };
+            let mut cells: Vec<String> = if p.len() > 3 { unhex(&p[3]).split(',').filter(|s| !s.is_empty()).map(|s| s.to_string()).collect() } else { vec![] };
+            let mut k = 0; while (cells.len() as u32) < n { k += 1; let extra = if cells.is_empty() && p.len() <= 3 { format!("A{}", k) } else { format!("{}{}", ["A", "C", "D", "E"][k % 4], 20 + k) }; if !cells.contains(&extra) { cells.push(extra); } }
+            let kind = |i: usize| kinds.get(i).map(|s| s.as_str()).unwrap_or("url").to_string();
+            let target = |i: usize| match kind(i).as_str() { "blank" => String::new(), "location" => format!("Sheet1!B{}", i + 1), _ => format!("https://example.invalid/{}", i + 1) };
             let mut book = umya_spreadsheet::new_file();
             let ws = book.get_sheet_by_name_mut("Sheet1").unwrap();
-            for i in 1..=n {
-                let c = ws.get_cell_mut((1, i));
-                c.set_value_string(format!("link{}", i));
+            for (i, cell) in cells.iter().enumerate() {
+                let c = ws.get_cell_mut(cell.as_str());
+                c.set_value_string(format!("link{}", i + 1));
                 c.get_hyperlink_mut().set_url(target(i));
                 if kind(i) == "location" { c.get_hyperlink_mut().set_location(true); }
             }
@@ -468,365 +473,11 @@ pub fn run(p: &[String]) -> Vec<String> {
             let back = umya_spreadsheet::reader::xlsx::read_reader(std::io::Cursor::new(buf), true).unwrap();
             let ws = back.get_sheet_by_name("Sheet1").unwrap();
             let mut wrong = vec![];
-            for i in 1..=n {
-                let got = ws.get_cell((1, i)).and_then(|c| c.get_hyperlink()).map(|h| h.get_url().to_string()).unwrap_or("<none>".to_string());
-                if got != target(i) { wrong.push(format!("A{}->{}", i, got)); }
+            for (i, cell) in cells.iter().enumerate() {
+                let got = ws.get_cell(cell.as_str()).and_then(|c| c.get_hyperlink()).map(|h| h.get_url().to_string()).unwrap_or("<none>".to_string());
+                if got != target(i) { wrong.push(format!("{}->{}", cell, got)); }
             }
             vec![hex(&wrong.join(","))]
-        }
-        "lazy_comments" => {
-            // "i,j,.." : four sheets S1..S4 with one comment each are saved, read lazily; the listed sheets stay untouched (raw),
-            // the others are deserialised; comments per sheet before and after a second save + full reload
-            let raw: Vec<u32> = unhex(&p[1]).split(',').filter(|s| !s.is_empty()).map(|s| s.parse().unwrap()).collect();
-            let mut book = umya_spreadsheet::new_file_empty_worksheet();
-            for i in 1..=4u32 {
-                let ws = book.new_sheet(format!("S{}", i)).unwrap();
-                ws.get_cell_mut((1, 1)).set_value_string("x");
-                let mut c = umya_spreadsheet::Comment::default();
-                c.new_comment((i, i));
-                c.set_text_string(format!("note {}", i));
-                c.set_author(format!("author {}", i));
-                ws.add_comments(c);
-            }
-            let show = |book: &umya_spreadsheet::Spreadsheet| {
-                book.get_sheet_collection().iter().map(|ws| format!("{}:[{}]", ws.get_name(), ws.get_comments().iter().map(|c| format!("{}/{}/{}", c.get_coordinate().get_coordinate(), c.get_author(), c.get_text().get_text())).collect::<Vec<_>>().join(","))).collect::<Vec<_>>().join(" ")
-            };
-            let before = show(&book);
-            let mut buf: Vec<u8> = Vec::new();
-            umya_spreadsheet::writer::xlsx::write_writer(&book, &mut buf).unwrap();
-            let dir = std::env::temp_dir().join(format!("umya_lazy_{}", std::process::id()));
-            std::fs::create_dir_all(&dir).unwrap();
-            let path = dir.join("lazy.xlsx");
-            std::fs::write(&path, &buf).unwrap();
-            let mut lazy = umya_spreadsheet::reader::xlsx::lazy_read(&path).unwrap();
-            for i in 1..=4u32 {
-                if !raw.contains(&i) { let _ = lazy.get_sheet_by_name_mut(&format!("S{}", i)).unwrap().get_cell_mut((2, 2)).set_value_string("touched"); }
-            }
-            let mut buf2: Vec<u8> = Vec::new();
-            umya_spreadsheet::writer::xlsx::write_writer(&lazy, &mut buf2).unwrap();
-            let _ = std::fs::remove_dir_all(&dir);
-            let back = umya_spreadsheet::reader::xlsx::read_reader(std::io::Cursor::new(buf2), true).unwrap();
-            vec![hex(&before), hex(&show(&back))]
-        }
-        // ---- C12
-        "save_history" => {
-            // history a1 b1 new : per save "label | sorted distinct cell strings | sorted <t> texts of xl/sharedStrings.xml"
-            use std::io::Read;
-            let (hist, a1, b1, newt) = (unhex(&p[1]), unhex(&p[2]), unhex(&p[3]), unhex(&p[4]));
-            let mut out: Vec<String> = vec![];
-            let mut save = |label: &str, book: &umya_spreadsheet::Spreadsheet| {
-                let mut cells: Vec<String> = vec![];
-                for ws in book.get_sheet_collection() { for c in ws.get_cell_collection() { if c.get_data_type() == "s" { cells.push(c.get_value().to_string()); } } }
-                cells.sort(); cells.dedup();
-                let dump = |b: &umya_spreadsheet::Spreadsheet| { let mut v: Vec<String> = b.get_sheet_collection().iter().flat_map(|ws| ws.get_cell_collection().into_iter().map(|c| format!("{}={}", c.get_coordinate().get_coordinate(), c.get_value()))).collect(); v.sort(); v.join(",") };
-                let mut buf: Vec<u8> = Vec::new();
-                umya_spreadsheet::writer::xlsx::write_writer(book, &mut buf).unwrap();
-                let reloaded = umya_spreadsheet::reader::xlsx::read_reader(std::io::Cursor::new(buf.clone()), true).map(|b| dump(&b)).unwrap_or("<unreadable>".into());
-                let same_cells = if reloaded == dump(book) { "cells reload unchanged".to_string() } else { format!("cells reload as {} instead of {}", reloaded, dump(book)) };
-                let mut zin = zip::ZipArchive::new(std::io::Cursor::new(buf)).unwrap();
-                let mut texts: Vec<String> = vec![];
-                if let Ok(mut f) = zin.by_name("xl/sharedStrings.xml") {
-                    let mut xml = String::new(); f.read_to_string(&mut xml).unwrap();
-                    let mut rest = xml.as_str();
-                    while let Some(i) = rest.find("<t") {
-                        let after = &rest[i + 2..];
-                        if !(after.starts_with('>') || after.starts_with(' ') || after.starts_with('/')) { rest = after; continue; }
-                        let gt = after.find('>').unwrap();
-                        if after[..gt].ends_with('/') { texts.push(String::new()); rest = &after[gt + 1..]; continue; }
-                        let end = after.find("</t>").unwrap();
-                        texts.push(after[gt + 1..end].replace("&lt;", "<").replace("&gt;", ">").replace("&quot;", "\"").replace("&apos;", "'").replace("&amp;", "&"));
-                        rest = &after[end..];
-                    }
-                }
-                texts.sort();
-                out.push(hex(&format!("{} | {} | {} | {}", label, cells.join(","), texts.join(","), same_cells)));
-            };
-            let mut book = umya_spreadsheet::new_file();
-            {
-                let ws = book.get_sheet_by_name_mut("Sheet1").unwrap();
-                ws.get_cell_mut((1, 1)).set_value_string(a1.clone());
-                ws.get_cell_mut((2, 1)).set_value_string(b1.clone());
-            }
-            if p.len() > 5 && b(&p[5]) {
-                // the workbook as read from a file: its own table holds the strings of its cells
-                // (read lazily and loaded sheet by sheet, the way that keeps the loaded table longest)
-                let mut buf: Vec<u8> = Vec::new();
-                umya_spreadsheet::writer::xlsx::write_writer(&book, &mut buf).unwrap();
-                let dir = std::env::temp_dir().join(format!("umya_hist_{}", std::process::id()));
-                std::fs::create_dir_all(&dir).unwrap();
-                let path = dir.join("loaded.xlsx");
-                std::fs::write(&path, &buf).unwrap();
-                book = umya_spreadsheet::reader::xlsx::lazy_read(&path).unwrap();
-                let _ = book.get_sheet_by_name_mut("Sheet1").unwrap().get_cell((1, 1));
-                let _ = std::fs::remove_dir_all(&dir);
-            }
-            match hist.as_str() {
-                "save" => save("save", &book),
-                "save_save" => { save("first save", &book); save("second save", &book); }
-                "overwrite_save" => { book.get_sheet_by_name_mut("Sheet1").unwrap().get_cell_mut((1, 1)).set_value_string(newt.clone()); save("save after overwrite", &book); }
-                "save_overwrite_save" => { save("first save", &book); book.get_sheet_by_name_mut("Sheet1").unwrap().get_cell_mut((1, 1)).set_value_string(newt.clone()); save("save after overwrite", &book); }
-                "save_remove_save" => { save("first save", &book); book.get_sheet_by_name_mut("Sheet1").unwrap().remove_cell((1, 1)); save("save after removing A1", &book); }
-                "clone_edit_save_clone_then_original" => {
-                    let mut clone = book.clone();
-                    clone.get_sheet_by_name_mut("Sheet1").unwrap().get_cell_mut((1, 1)).set_value_string(newt.clone());
-                    save("save of the edited clone", &clone); save("save of the original", &book);
-                }
-                _ => { save("first save", &book); book.get_sheet_by_name_mut("Sheet1").unwrap().get_cell_mut((1, 1)).set_value_string(a1.clone()); save("save after re-setting the same text", &book); }
-            }
-            out
-        }
-        // ---- C16
-        "saver_schedule" => {
-            // "a,b;c,d" "0,1,0,.." [preloaded "p,q"] : savers sharing one table, stepped in the given order (verif_api hook over the real
-            // Cell::write_to / SharedStringTable::write_to); per saver "texts -> strings its cells show in its own dump ok|MISMATCH"
-            let texts: Vec<Vec<String>> = unhex(&p[1]).split(';').map(|s| s.split(',').map(|t| t.to_string()).collect()).collect();
-            let schedule: Vec<usize> = unhex(&p[2]).split(',').filter(|s| !s.is_empty()).map(|s| s.parse().unwrap()).collect();
-            let pre: Vec<String> = if p.len() > 3 { unhex(&p[3]).split(',').filter(|s| !s.is_empty()).map(|t| t.to_string()).collect() } else { vec![] };
-            let between = |xml: &str, open: &str, close: &str| -> Vec<String> {
-                let mut out = vec![]; let mut rest = xml;
-                while let Some(i) = rest.find(open) {
-                    let after = &rest[i + open.len()..];
-                    let gt = after.find('>').unwrap();
-                    if after[..gt].ends_with('/') { out.push(String::new()); rest = &after[gt + 1..]; continue; }
-                    let end = after.find(close).unwrap();
-                    out.push(after[gt + 1..end].to_string()); rest = &after[end..];
-                }
-                out
-            };
-            umya_spreadsheet::verif_api::saver_schedule(&pre, &texts, &schedule).iter().zip(texts.iter()).map(|((cells, dump), own)| {
-                let idx: Vec<usize> = between(cells, "<v", "</v>").iter().map(|s| s.parse().unwrap_or(usize::MAX)).collect();
-                let strings = between(dump, "<t", "</t>");
-                let shown: Vec<String> = idx.iter().map(|i| strings.get(*i).cloned().unwrap_or("<index outside the dump>".into())).collect();
-                hex(&format!("{} -> {} {}", own.join(","), shown.join(","), if &shown == own { "ok" } else { "MISMATCH" }))
-            }).collect()
-        }
-        "saver_race" => {
-            // "a,b;c,d" rounds : clones of a lazily read workbook (one sheet still unloaded, so the clones share the shared-string table)
-            // saved concurrently on real threads; every saver writes 1500 text cells derived from its texts; every file is read back
-            let texts: Vec<Vec<String>> = unhex(&p[1]).split(';').map(|s| s.split(',').map(|t| t.to_string()).collect()).collect();
-            let rounds = u(&p[2]);
-            let mut base = umya_spreadsheet::new_file_empty_worksheet();
-            base.new_sheet("S").unwrap().get_cell_mut((1, 1)).set_value_string("seed");
-            base.new_sheet("RAW").unwrap().get_cell_mut((1, 1)).set_value_string("raw sheet");
-            let mut buf: Vec<u8> = Vec::new();
-            umya_spreadsheet::writer::xlsx::write_writer(&base, &mut buf).unwrap();
-            let mut problems: Vec<String> = vec![];
-            for round in 0..rounds {
-                let mut lazy = umya_spreadsheet::reader::xlsx::read_reader(std::io::Cursor::new(buf.clone()), false).unwrap();
-                lazy.read_sheet(0);
-                let want = |s: usize, j: u32| -> String { let ts = &texts[s]; format!("{}{}", ts[(j as usize) % ts.len()], (j as usize) / ts.len() + round as usize * 7) };
-                let clones: Vec<umya_spreadsheet::Spreadsheet> = (0..texts.len()).map(|s| {
-                    let mut c = lazy.clone();
-                    { let ws = c.get_sheet_mut(&0).unwrap(); for j in 0..1500u32 { ws.get_cell_mut((1, j + 1)).set_value_string(want(s, j)); } }
-                    c
-                }).collect();
-                let barrier = std::sync::Arc::new(std::sync::Barrier::new(clones.len()));
-                let handles: Vec<_> = clones.into_iter().map(|c| { let b = barrier.clone(); std::thread::spawn(move || { b.wait(); let mut out: Vec<u8> = Vec::new(); let r = umya_spreadsheet::writer::xlsx::write_writer(&c, &mut out); (r.is_ok(), out) }) }).collect();
-                for (s, h) in handles.into_iter().enumerate() {
-                    match h.join() {
-                        Err(_) => problems.push(format!("round {} saver {}: the save panicked", round, s)),
-                        Ok((false, _)) => problems.push(format!("round {} saver {}: the save returned an error", round, s)),
-                        Ok((true, out)) => {
-                            let back = std::panic::catch_unwind(|| umya_spreadsheet::reader::xlsx::read_reader(std::io::Cursor::new(out), true));
-                            match back {
-                                Ok(Ok(book)) => {
-                                    let ws = book.get_sheet(&0).unwrap();
-                                    let mut bad = 0; let mut first = String::new();
-                                    for j in 0..1500u32 { let got = ws.get_value((1, j + 1)); if got != want(s, j) { bad += 1; if first.is_empty() { first = format!("A{} shows {:?} instead of {:?}", j + 1, got, want(s, j)); } } }
-                                    if bad > 0 { problems.push(format!("round {} saver {}: {} cells show a foreign string, e.g. {}", round, s, bad, first)); }
-                                }
-                                _ => problems.push(format!("round {} saver {}: the saved file cannot be read back", round, s)),
-                            }
-                        }
-                    }
-                }
-                if !problems.is_empty() { break; }
-            }
-            if problems.is_empty() { vec![hex("all cells show their own strings")] } else { problems.iter().take(4).map(|s| hex(s)).collect() }
-        }
-        // ---- generic struct round trips (C05 / C06 kernels)
-        "struct_roundtrip" => {
-            // struct "setter=value;..." : the named settings applied through the public API on a real workbook, saved, reloaded;
-            // Debug rendering of the struct before and after
-            use umya_spreadsheet::*;
-            let (which, spec) = (unhex(&p[1]), unhex(&p[2]));
-            let kv: Vec<(String, String)> = spec.split(';').filter(|s| !s.is_empty()).map(|s| { let (k, v) = s.split_once('=').unwrap(); (k.to_string(), v.to_string()) }).collect();
-            let text = |v: &str| -> String { String::from_utf8((0..v.len()).step_by(2).map(|i| u8::from_str_radix(&v[i..i + 2], 16).unwrap()).collect()).unwrap() };
-            let num = |v: &str| -> u32 { v.parse::<f64>().unwrap() as u32 };
-            let flag = |v: &str| -> bool { v == "1" || v == "True" || v == "true" };
-            let last = |k: &str| -> String { k.rsplit("::").next().unwrap().rsplit('/').next().unwrap().to_string() };
-            let mut book = new_file();
-            {
-                let ws = book.get_sheet_by_name_mut("Sheet1").unwrap();
-                ws.get_cell_mut((1, 1)).set_value_string("x");
-                match which.as_str() {
-                    "alignment" => { let a = ws.get_cell_mut((1, 1)).get_style_mut().get_alignment_mut(); for (k, v) in &kv { match k.as_str() {
-                        "set_horizontal" => a.set_horizontal([HorizontalAlignmentValues::Center, HorizontalAlignmentValues::CenterContinuous, HorizontalAlignmentValues::Distributed, HorizontalAlignmentValues::Fill, HorizontalAlignmentValues::General, HorizontalAlignmentValues::Justify, HorizontalAlignmentValues::Left, HorizontalAlignmentValues::Right][num(v) as usize].clone()),
-                        "set_vertical" => a.set_vertical([VerticalAlignmentValues::Bottom, VerticalAlignmentValues::Center, VerticalAlignmentValues::Distributed, VerticalAlignmentValues::Justify, VerticalAlignmentValues::Top][num(v) as usize].clone()),
-                        "set_wrap_text" => a.set_wrap_text(flag(v)), "set_text_rotation" => a.set_text_rotation(num(v)), _ => panic!("setter {}", k) } } }
-                    "protection" => { let a = ws.get_cell_mut((1, 1)).get_style_mut().get_protection_mut(); for (k, v) in &kv { match k.as_str() { "set_locked" => a.set_locked(flag(v)), "set_hidden" => a.set_hidden(flag(v)), _ => panic!("setter {}", k) } } }
-                    "page_margins" => { let a = ws.get_page_margins_mut(); for (k, v) in &kv { let x = v.parse::<f64>().unwrap(); match k.as_str() { "set_left" => { a.set_left(x); } "set_right" => { a.set_right(x); } "set_top" => { a.set_top(x); } "set_bottom" => { a.set_bottom(x); } "set_header" => { a.set_header(x); } "set_footer" => { a.set_footer(x); } _ => panic!("setter {}", k) } } }
-                    "pane" => { let mut pane = Pane::default(); for (k, v) in &kv { match k.as_str() {
-                        "set_horizontal_split" => { pane.set_horizontal_split(v.parse().unwrap()); } "set_vertical_split" => { pane.set_vertical_split(v.parse().unwrap()); }
-                        "set_active_pane" => { pane.set_active_pane([PaneValues::BottomLeft, PaneValues::BottomRight, PaneValues::TopLeft, PaneValues::TopRight][num(v) as usize].clone()); }
-                        "set_state" => { pane.set_state([PaneStateValues::Frozen, PaneStateValues::FrozenSplit, PaneStateValues::Split][num(v) as usize].clone()); } _ => panic!("setter {}", k) } }
-                        ws.get_sheet_views_mut().get_sheet_view_list_mut()[0].set_pane(pane); }
-                    "sheet_protection" => { let a = ws.get_sheet_protection_mut(); for (k, v) in &kv { match k.as_str() {
-                        "set_sheet" => { a.set_sheet(flag(v)); } "set_objects" => { a.set_objects(flag(v)); } "set_delete_rows" => { a.set_delete_rows(flag(v)); } "set_insert_columns" => { a.set_insert_columns(flag(v)); }
-                        "set_delete_columns" => { a.set_delete_columns(flag(v)); } "set_insert_hyperlinks" => { a.set_insert_hyperlinks(flag(v)); } "set_auto_filter" => { a.set_auto_filter(flag(v)); } "set_scenarios" => { a.set_scenarios(flag(v)); }
-                        "set_format_cells" => { a.set_format_cells(flag(v)); } "set_format_columns" => { a.set_format_columns(flag(v)); } "set_insert_rows" => { a.set_insert_rows(flag(v)); } "set_format_rows" => { a.set_format_rows(flag(v)); }
-                        "set_pivot_tables" => { a.set_pivot_tables(flag(v)); } "set_select_locked_cells" => { a.set_select_locked_cells(flag(v)); } "set_select_unlocked_cells" => { a.set_select_unlocked_cells(flag(v)); } "set_sort" => { a.set_sort(flag(v)); }
-                        "set_algorithm_name" => { a.set_algorithm_name(text(v)); } "set_hash_value" => { a.set_hash_value(text(v)); } "set_salt_value" => { a.set_salt_value(text(v)); } "set_spin_count" => { a.set_spin_count(num(v)); } _ => panic!("setter {}", k) } } }
-                    "data_validation" => { let mut a = DataValidation::default(); a.get_sequence_of_references_mut().set_sqref("A1"); for (k, v) in &kv { match k.as_str() {
-                        "set_type" => { a.set_type([DataValidationValues::Custom, DataValidationValues::Date, DataValidationValues::Decimal, DataValidationValues::List, DataValidationValues::None, DataValidationValues::TextLength, DataValidationValues::Time, DataValidationValues::Whole][num(v) as usize].clone()); }
-                        "set_operator" => { a.set_operator([DataValidationOperatorValues::Between, DataValidationOperatorValues::Equal, DataValidationOperatorValues::GreaterThan, DataValidationOperatorValues::GreaterThanOrEqual, DataValidationOperatorValues::LessThan, DataValidationOperatorValues::LessThanOrEqual, DataValidationOperatorValues::NotBetween, DataValidationOperatorValues::NotEqual][num(v) as usize].clone()); }
-                        "set_allow_blank" => { a.set_allow_blank(flag(v)); } "set_show_input_message" => { a.set_show_input_message(flag(v)); } "set_show_error_message" => { a.set_show_error_message(flag(v)); }
-                        "set_prompt_title" => { a.set_prompt_title(text(v)); } "set_error_title" => { a.set_error_title(text(v)); } "set_error_message" => { a.set_error_message(text(v)); } "set_prompt" => { a.set_prompt(text(v)); }
-                        "set_formula1" => { a.set_formula1(text(v)); } "set_formula2" => { a.set_formula2(text(v)); } _ => panic!("setter {}", k) } }
-                        let mut dvs = DataValidations::default(); dvs.add_data_validation_list(a); ws.set_data_validations(dvs); }
-                    "font" => { let a = ws.get_cell_mut((1, 1)).get_style_mut().get_font_mut(); for (k, v) in &kv { match k.as_str() {
-                        "set_name" => { a.set_name(text(v)); } "set_size" => { a.set_size(v.parse().unwrap()); } "set_bold" => { a.set_bold(flag(v)); } "set_italic" => { a.set_italic(flag(v)); } "set_strikethrough" => { a.set_strikethrough(flag(v)); }
-                        "set_family" => { a.set_family(num(v) as i32); } "set_charset" => { a.set_charset(num(v) as i32); } "set_underline" => { a.set_underline(text(v)); } "set_scheme" => { a.set_scheme(text(v)); } _ => panic!("setter {}", k) } } }
-                    "header_footer" => { for (k, v) in &kv { if k.contains("odd_header") { ws.get_header_footer_mut().get_odd_header_mut().set_value(text(v)); } else { ws.get_header_footer_mut().get_odd_footer_mut().set_value(text(v)); } } }
-                    "page_setup" => { let a = ws.get_page_setup_mut(); for (k, v) in &kv { match k.as_str() {
-                        "set_paper_size" => { a.set_paper_size(num(v)); } "set_orientation" => { a.set_orientation([OrientationValues::Default, OrientationValues::Landscape, OrientationValues::Portrait][num(v) as usize].clone()); } "set_scale" => { a.set_scale(num(v)); }
-                        "set_fit_to_height" => { a.set_fit_to_height(num(v)); } "set_fit_to_width" => { a.set_fit_to_width(num(v)); } "set_horizontal_dpi" => { a.set_horizontal_dpi(num(v)); } "set_vertical_dpi" => { a.set_vertical_dpi(num(v)); } _ => panic!("setter {}", k) } } }
-                    "borders" => { let a = ws.get_cell_mut((1, 1)).get_style_mut().get_borders_mut(); let styles = [BorderStyleValues::DashDot, BorderStyleValues::DashDotDot, BorderStyleValues::Dashed, BorderStyleValues::Dotted, BorderStyleValues::Double, BorderStyleValues::Hair, BorderStyleValues::Medium, BorderStyleValues::MediumDashDot, BorderStyleValues::MediumDashDotDot, BorderStyleValues::MediumDashed, BorderStyleValues::None, BorderStyleValues::SlantDashDot, BorderStyleValues::Thick, BorderStyleValues::Thin];
-                        for (k, v) in &kv { if k.starts_with("get_left_mut") { a.get_left_mut().set_style(styles[num(v) as usize].clone()); } else if k.starts_with("get_right_mut") { a.get_right_mut().set_style(styles[num(v) as usize].clone()); } else if k.starts_with("get_top_mut") { a.get_top_mut().set_style(styles[num(v) as usize].clone()); }
-                            else if k.starts_with("get_bottom_mut") { a.get_bottom_mut().set_style(styles[num(v) as usize].clone()); } else if k.starts_with("get_diagonal_mut") { a.get_diagonal_mut().set_style(styles[num(v) as usize].clone()); }
-                            else if k == "set_diagonal_up" { a.set_diagonal_up(flag(v)); } else if k == "set_diagonal_down" { a.set_diagonal_down(flag(v)); } else { panic!("setter {}", last(k)) } } }
-                    "pattern_fill" => { let argb = |v: &str| { let mut c = Color::default(); c.set_argb(text(v)); c }; let a = ws.get_cell_mut((1, 1)).get_style_mut().get_fill_mut().get_pattern_fill_mut(); for (k, v) in &kv { match k.as_str() {
-                        "set_pattern_type" => { a.set_pattern_type([PatternValues::DarkDown, PatternValues::DarkGray, PatternValues::DarkGrid, PatternValues::DarkHorizontal, PatternValues::DarkTrellis, PatternValues::DarkUp, PatternValues::DarkVertical, PatternValues::Gray0625, PatternValues::Gray125, PatternValues::LightDown, PatternValues::LightGray, PatternValues::LightGrid, PatternValues::LightHorizontal, PatternValues::LightTrellis, PatternValues::LightUp, PatternValues::LightVertical, PatternValues::MediumGray, PatternValues::None, PatternValues::Solid][num(v) as usize].clone()); }
-                        "set_foreground_color" => { a.set_foreground_color(argb(v)); } "set_background_color" => { a.set_background_color(argb(v)); } _ => panic!("setter {}", k) } } }
-                    "color" => { let a = ws.get_cell_mut((1, 1)).get_style_mut().get_font_mut().get_color_mut(); for (k, v) in &kv { match k.as_str() {
-                        "set_argb" => { a.set_argb(text(v)); } "set_indexed" => { a.set_indexed(num(v)); } "set_theme_index" => { a.set_theme_index(num(v)); } "set_tint" => { a.set_tint(v.parse().unwrap()); } _ => panic!("setter {}", k) } } }
-                    "sheet_view" => { let a = &mut ws.get_sheet_views_mut().get_sheet_view_list_mut()[0]; for (k, v) in &kv { match k.as_str() {
-                        "set_show_grid_lines" => { a.set_show_grid_lines(flag(v)); } "set_tab_selected" => { a.set_tab_selected(flag(v)); } "set_workbook_view_id" => { a.set_workbook_view_id(num(v)); }
-                        "set_view" => { a.set_view([SheetViewValues::Normal, SheetViewValues::PageBreakPreview, SheetViewValues::PageLayout][num(v) as usize].clone()); }
-                        "set_zoom_scale" => { a.set_zoom_scale(num(v)); } "set_zoom_scale_normal" => { a.set_zoom_scale_normal(num(v)); } "set_top_left_cell" => { a.set_top_left_cell(text(v)); } _ => panic!("setter {}", k) } } }
-                    "row" => { let mut n = 3u32; for (k, v) in &kv { if k == "set_row_num" { n = num(v); } } ws.get_cell_mut((1, n)).set_value_string("r"); let a = ws.get_row_dimension_mut(&n); for (k, v) in &kv { match k.as_str() {
-                        "set_row_num" => {} "set_height" => { a.set_height(v.parse().unwrap()); } "set_descent" => { a.set_descent(v.parse().unwrap()); } "set_thick_bot" => { a.set_thick_bot(flag(v)); } "set_custom_height" => { a.set_custom_height(flag(v)); } "set_hidden" => { a.set_hidden(flag(v)); } _ => panic!("setter {}", k) } } }
-                    "defined_name" => { let mut name = String::from("N"); let mut addr = String::from("Sheet1!$A$1"); for (k, v) in &kv { if k == "set_name" { name = text(v); } if k == "set_address" { addr = text(v); } }
-                        if addr.contains("My Sheet") { /* the sheet the address names must exist */ }
-                        ws.add_defined_name(name, addr).unwrap(); let d = ws.get_defined_names_mut().last_mut().unwrap(); for (k, v) in &kv { match k.as_str() { "set_name" | "set_address" => {} "set_local_sheet_id" => d.set_local_sheet_id(num(v)), "set_hidden" => d.set_hidden(flag(v)), _ => panic!("setter {}", k) } } }
-                    "sheet_format_properties" => { let a = ws.get_sheet_format_properties_mut(); for (k, v) in &kv { match k.as_str() {
-                        "set_base_column_width" => { a.set_base_column_width(num(v)); } "set_custom_height" => { a.set_custom_height(flag(v)); } "set_default_column_width" => { a.set_default_column_width(v.parse().unwrap()); }
-                        "set_default_row_height" => { a.set_default_row_height(v.parse().unwrap()); } "set_dy_descent" => { a.set_dy_descent(v.parse().unwrap()); } "set_outline_level_column" => { a.set_outline_level_column(num(v) as u8); }
-                        "set_outline_level_row" => { a.set_outline_level_row(num(v) as u8); } "set_thick_bottom" => { a.set_thick_bottom(flag(v)); } "set_thick_top" => { a.set_thick_top(flag(v)); } _ => panic!("setter {}", k) } } }
-                    "print_options" => { let a = ws.get_print_options_mut(); for (k, v) in &kv { match k.as_str() { "set_horizontal_centered" => { a.set_horizontal_centered(flag(v)); } "set_vertical_centered" => { a.set_vertical_centered(flag(v)); } _ => panic!("setter {}", k) } } }
-                    "merge_cells" => { for (k, v) in &kv { if k.starts_with("add_range") { ws.add_merge_cells(text(v)); } else { panic!("setter {}", k) } } }
-                    "cf_rule" => { use ConditionalFormatValues as T; use ConditionalFormattingOperatorValues as O; use TimePeriodValues as P;
-                        let mut a = ConditionalFormattingRule::default(); for (k, v) in &kv { match k.as_str() {
-                        "set_type" => { a.set_type([T::AboveAverage, T::BeginsWith, T::CellIs, T::ColorScale, T::ContainsBlanks, T::ContainsErrors, T::ContainsText, T::DataBar, T::DuplicateValues, T::EndsWith, T::Expression, T::IconSet, T::NotContainsBlanks, T::NotContainsErrors, T::NotContainsText, T::TimePeriod, T::Top10, T::UniqueValues][num(v) as usize].clone()); }
-                        "set_operator" => { a.set_operator([O::BeginsWith, O::Between, O::ContainsText, O::EndsWith, O::Equal, O::GreaterThan, O::GreaterThanOrEqual, O::LessThan, O::LessThanOrEqual, O::NotBetween, O::NotContains, O::NotEqual][num(v) as usize].clone()); }
-                        "set_text" => { a.set_text(text(v)); } "set_priority" => { a.set_priority(num(v) as i32); } "set_percent" => { a.set_percent(flag(v)); } "set_bottom" => { a.set_bottom(flag(v)); } "set_rank" => { a.set_rank(num(v)); }
-                        "set_stop_if_true" => { a.set_stop_if_true(flag(v)); } "set_std_dev" => { a.set_std_dev(num(v) as i32); } "set_above_average" => { a.set_above_average(flag(v)); } "set_equal_average" => { a.set_equal_average(flag(v)); }
-                        "set_time_period" => { a.set_time_period([P::Last7Days, P::LastMonth, P::LastWeek, P::NextMonth, P::NextWeek, P::ThisMonth, P::ThisWeek, P::Today, P::Tomorrow, P::Yesterday][num(v) as usize].clone()); } _ => panic!("setter {}", k) } }
-                        let mut cf = ConditionalFormatting::default(); cf.get_sequence_of_references_mut().set_sqref("A1:A5"); cf.add_conditional_collection(a); ws.add_conditional_formatting_collection(cf); }
-                    "workbook_protection" => {}
-                    _ => panic!("struct {}", which),
-                }
-            }
-            if which == "workbook_protection" {
-                let a = book.get_workbook_protection_mut(); for (k, v) in &kv { match k.as_str() {
-                    "set_workbook_algorithm_name" => { a.set_workbook_algorithm_name(text(v)); } "set_workbook_hash_value" => { a.set_workbook_hash_value(text(v)); } "set_workbook_salt_value" => { a.set_workbook_salt_value(text(v)); } "set_workbook_password_raw" => { a.set_workbook_password_raw(text(v)); }
-                    "set_revisions_algorithm_name" => { a.set_revisions_algorithm_name(text(v)); } "set_revisions_hash_value" => { a.set_revisions_hash_value(text(v)); } "set_revisions_salt_value" => { a.set_revisions_salt_value(text(v)); } "set_revisions_password_raw" => { a.set_revisions_password_raw(text(v)); }
-                    "set_workbook_spin_count" => { a.set_workbook_spin_count(num(v)); } "set_revisions_spin_count" => { a.set_revisions_spin_count(num(v)); }
-                    "set_lock_revision" => { a.set_lock_revision(flag(v)); } "set_lock_structure" => { a.set_lock_structure(flag(v)); } "set_lock_windows" => { a.set_lock_windows(flag(v)); } _ => panic!("setter {}", k) } }
-            }
-            // only what the public getters return is shown (an unset field and a field holding its default are the same to a user)
-            let show = |book: &Spreadsheet| -> String {
-                if which == "workbook_protection" {
-                    return match book.get_workbook_protection() { None => "none".to_string(), Some(p) => format!("{}|{}|{}|{}|{}|{}|{}|{}|{}|{}|{}|{}|{}", p.get_workbook_algorithm_name(), p.get_workbook_hash_value(), p.get_workbook_salt_value(), p.get_workbook_spin_count(), p.get_workbook_password_raw(),
-                        p.get_revisions_algorithm_name(), p.get_revisions_hash_value(), p.get_revisions_salt_value(), p.get_revisions_spin_count(), p.get_revisions_password_raw(), p.get_lock_revision(), p.get_lock_structure(), p.get_lock_windows()) };
-                }
-                let ws = book.get_sheet_by_name("Sheet1").unwrap();
-                let color = |c: &Color| format!("argb={} idx={} theme={} tint={}", c.get_argb(), c.get_indexed(), c.get_theme_index(), c.get_tint());
-                match which.as_str() {
-                    "alignment" => match ws.get_style((1, 1)).get_alignment() { None => "none".into(), Some(a) => format!("{:?} {:?} {} {}", a.get_horizontal(), a.get_vertical(), a.get_wrap_text(), a.get_text_rotation()) },
-                    "protection" => match ws.get_style((1, 1)).get_protection() { None => "none".into(), Some(a) => { let mut a = a.clone(); let l = *a.get_locked(); let h = *a.get_hidden(); format!("{} {}", l, h) } },
-                    "page_margins" => { let m = ws.get_page_margins(); format!("{} {} {} {} {} {}", m.get_left(), m.get_right(), m.get_top(), m.get_bottom(), m.get_header(), m.get_footer()) }
-                    "pane" => match ws.get_sheets_views().get_sheet_view_list()[0].get_pane() { None => "none".into(), Some(p) => format!("{} {} {:?} {:?}", p.get_horizontal_split(), p.get_vertical_split(), p.get_active_pane(), p.get_state()) },
-                    "sheet_protection" => match ws.get_sheet_protection() { None => "none".into(), Some(a) => format!("{} {} {} {} {} {} {} {} {} {} {} {} {} {} {} {} |{}|{}|{}|{}", a.get_sheet(), a.get_objects(), a.get_delete_rows(), a.get_insert_columns(), a.get_delete_columns(), a.get_insert_hyperlinks(), a.get_auto_filter(), a.get_scenarios(),
-                        a.get_format_cells(), a.get_format_columns(), a.get_insert_rows(), a.get_format_rows(), a.get_pivot_tables(), a.get_select_locked_cells(), a.get_select_unlocked_cells(), a.get_sort(), a.get_algorithm_name(), a.get_hash_value(), a.get_salt_value(), a.get_spin_count()) },
-                    "data_validation" => match ws.get_data_validations() { None => "none".into(), Some(d) => d.get_data_validation_list().iter().map(|a| format!("{:?} {:?} {} {} {} |{}|{}|{}|{}|{}|{}", a.get_type(), a.get_operator(), a.get_allow_blank(), a.get_show_input_message(), a.get_show_error_message(),
-                        a.get_prompt_title(), a.get_error_title(), a.get_error_message(), a.get_prompt(), a.get_formula1(), a.get_formula2())).collect::<Vec<_>>().join(" ; ") },
-                    "font" => match ws.get_style((1, 1)).get_font() { None => "none".into(), Some(f) => format!("{}|{}|{}|{}|{}|{}|{}|{}|{}", f.get_name(), f.get_size(), f.get_bold(), f.get_italic(), f.get_strikethrough(), f.get_family(), f.get_charset(), f.get_underline(), f.get_scheme()) },
-                    "header_footer" => format!("{:?} | {:?}", ws.get_header_footer().get_odd_header().get_value(), ws.get_header_footer().get_odd_footer().get_value()),
-                    "page_setup" => { let p = ws.get_page_setup(); format!("{} {:?} {} {} {} {} {}", p.get_paper_size(), p.get_orientation(), p.get_scale(), p.get_fit_to_height(), p.get_fit_to_width(), p.get_horizontal_dpi(), p.get_vertical_dpi()) }
-                    "borders" => match ws.get_style((1, 1)).get_borders() { None => "none".into(), Some(b) => format!("{:?} {:?} {:?} {:?} {:?} {} {}", b.get_left().get_style(), b.get_right().get_style(), b.get_top().get_style(), b.get_bottom().get_style(), b.get_diagonal().get_style(), b.get_diagonal_up(), b.get_diagonal_down()) },
-                    "pattern_fill" => match ws.get_style((1, 1)).get_fill() { None => "none".into(), Some(f) => { let p = f.get_pattern_fill(); match p { None => "no pattern".into(), Some(p) => format!("{:?} fg[{}] bg[{}]", p.get_pattern_type(), p.get_foreground_color().map(color).unwrap_or("-".into()), p.get_background_color().map(color).unwrap_or("-".into())) } } },
-                    "color" => match ws.get_style((1, 1)).get_font() { None => "none".into(), Some(f) => color(f.get_color()) },
-                    "sheet_view" => { let v = &ws.get_sheets_views().get_sheet_view_list()[0]; format!("{} {} {} {:?} {} {} {}", v.get_show_grid_lines(), v.get_tab_selected(), v.get_workbook_view_id(), v.get_view(), v.get_zoom_scale(), v.get_zoom_scale_normal(), v.get_top_left_cell()) }
-                    "sheet_format_properties" => { let a = ws.get_sheet_format_properties(); format!("{} {} {} {} {} {} {} {} {}", a.get_base_column_width(), a.get_custom_height(), a.get_default_column_width(), a.get_default_row_height(), a.get_dy_descent(), a.get_outline_level_column(), a.get_outline_level_row(), a.get_thick_bottom(), a.get_thick_top()) }
-                    "cf_rule" => ws.get_conditional_formatting_collection().iter().flat_map(|c| c.get_conditional_collection().iter().map(|a| format!("{:?} {:?} |{}| {} {} {} {} {} {} {} {} {:?}", a.get_type(), a.get_operator(), a.get_text(), a.get_priority(), a.get_percent(), a.get_bottom(), a.get_rank(), a.get_stop_if_true(), a.get_std_dev(), a.get_above_average(), a.get_equal_average(), a.get_time_period())).collect::<Vec<_>>()).collect::<Vec<_>>().join(" ; "),
-                    "print_options" => { let a = ws.get_print_options(); format!("{} {}", a.get_horizontal_centered(), a.get_vertical_centered()) }
-                    "merge_cells" => ws.get_merge_cells().iter().map(|r| r.get_range()).collect::<Vec<_>>().join(","),
-                    "row" => { let mut v: Vec<String> = ws.get_row_dimensions().iter().filter(|r| *r.get_row_num() != 1).map(|r| format!("{}: h={} d={} tb={} ch={} hid={}", r.get_row_num(), r.get_height(), r.get_descent(), r.get_thick_bot(), r.get_custom_height(), r.get_hidden())).collect(); v.sort(); v.join(" | ") }
-                    "defined_name" => { let mut v: Vec<String> = book.get_sheet_collection().iter().flat_map(|w| w.get_defined_names().iter().map(|d| format!("{}={} local={} hidden={}", d.get_name(), d.get_address(), d.get_local_sheet_id(), d.get_hidden())).collect::<Vec<_>>()).collect(); v.extend(book.get_defined_names().iter().map(|d| format!("{}={} local={} hidden={}", d.get_name(), d.get_address(), d.get_local_sheet_id(), d.get_hidden()))); v.sort(); v.join(" | ") }
-                    _ => String::new(),
-                }
-            };
-            let before = show(&book);
-            let mut buf: Vec<u8> = Vec::new();
-            writer::xlsx::write_writer(&book, &mut buf).unwrap();
-            let back = reader::xlsx::read_reader(std::io::Cursor::new(buf), true).unwrap();
-            vec![hex(&before), hex(&show(&back))]
-        }
-        "workbook_part" => {
-            // name0 name1 state0 state1 active_tab owner refers local : two sheets, one defined name N -> 'sheet'!$A$1, saved and reloaded
-            use umya_spreadsheet::*;
-            let names = [unhex(&p[1]), unhex(&p[2])];
-            let states = [u(&p[3]), u(&p[4])]; let tab = u(&p[5]); let owner = u(&p[6]) as usize; let refers = u(&p[7]) as usize; let local = b(&p[8]);
-            let mut book = new_file_empty_worksheet();
-            for i in 0..2 {
-                let ws = book.new_sheet(names[i].clone()).unwrap();
-                ws.get_cell_mut((1, 1)).set_value_string("x");
-                if states[i] < 3 { ws.set_state([SheetStateValues::Hidden, SheetStateValues::VeryHidden, SheetStateValues::Visible][states[i] as usize].clone()); }
-            }
-            book.get_workbook_view_mut().set_active_tab(tab);
-            let addr = format!("'{}'!$A$1", names[refers]);
-            if owner == 0 {
-                // a workbook-level name can only be made from a sheet's one through the public API
-                let ws = book.get_sheet_mut(&0).unwrap(); ws.add_defined_name("N", addr.as_str()).unwrap();
-                let d = ws.get_defined_names_mut().pop().unwrap(); book.add_defined_names(d);
-            } else { let ws = book.get_sheet_mut(&(owner - 1)).unwrap(); ws.add_defined_name("N", addr.as_str()).unwrap(); if local { ws.get_defined_names_mut().last_mut().unwrap().set_local_sheet_id(owner as u32 - 1); } }
-            let show = |book: &Spreadsheet| {
-                let mut all: Vec<String> = vec![];
-                let mut parts: Vec<String> = book.get_sheet_collection().iter().enumerate().map(|(i, w)| {
-                    for d in w.get_defined_names() { all.push(format!("{}={}{}", d.get_name(), d.get_address(), if d.has_local_sheet_id() { format!(" (local to sheet {})", i) } else { String::new() })); }
-                    format!("{}:{:?}", w.get_name(), w.get_state()) }).collect();
-                for d in book.get_defined_names() { all.push(format!("{}={}", d.get_name(), d.get_address())); }
-                all.sort(); parts.push(format!("tab={}", book.get_workbook_view().get_active_tab())); parts.push(format!("names=[{}]", all.join(", "))); parts.join(" | ")
-            };
-            let before = show(&book);
-            let mut buf: Vec<u8> = Vec::new();
-            writer::xlsx::write_writer(&book, &mut buf).unwrap();
-            let back = reader::xlsx::read_reader(std::io::Cursor::new(buf), true).unwrap();
-            vec![hex(&before), hex(&show(&back))]
-        }
-        "comments_roundtrip" => {
-            // "col,row,authorhex,texthex;..." ('-' = empty) : comments of Sheet1 saved and reloaded
-            let spec = unhex(&p[1]);
-            let dec = |h: &str| -> String { if h == "-" { String::new() } else { String::from_utf8((0..h.len()).step_by(2).map(|i| u8::from_str_radix(&h[i..i + 2], 16).unwrap()).collect()).unwrap() } };
-            let mut book = umya_spreadsheet::new_file();
-            {
-                let ws = book.get_sheet_by_name_mut("Sheet1").unwrap();
-                ws.get_cell_mut((1, 1)).set_value_string("x");
-                for item in spec.split(';') {
-                    let f: Vec<&str> = item.split(',').collect();
-                    let mut c = umya_spreadsheet::Comment::default();
-                    c.new_comment((f[0].parse::<u32>().unwrap(), f[1].parse::<u32>().unwrap()));
-                    c.set_author(dec(f[2])); c.set_text_string(dec(f[3]));
-                    ws.add_comments(c);
-                }
-            }
-            let show = |book: &umya_spreadsheet::Spreadsheet| { let mut v: Vec<String> = book.get_sheet_by_name("Sheet1").unwrap().get_comments().iter().map(|c| format!("{}: author {:?} text {:?}", c.get_coordinate().get_coordinate(), c.get_author(), c.get_text().get_text())).collect(); v.sort(); v.join(" | ") };
-            let before = show(&book);
-            let mut buf: Vec<u8> = Vec::new();
-            umya_spreadsheet::writer::xlsx::write_writer(&book, &mut buf).unwrap();
-            let back = umya_spreadsheet::reader::xlsx::read_reader(std::io::Cursor::new(buf), true).unwrap();
-            vec![hex(&before), hex(&show(&back))]
         }
         // ---- C04
         "attr_generations" => {
@@ -987,6 +638,60 @@ pub fn run(p: &[String]) -> Vec<String> {
             umya_spreadsheet::writer::xlsx::write_writer(&book, &mut buf).unwrap();
             let back = umya_spreadsheet::reader::xlsx::read_reader(std::io::Cursor::new(buf), true).unwrap();
             vec![hex(&before), hex(&show(&back))]
+        }
+        "styles_roundtrip" => {
+            // "bold,center,unlocked,nf,codehex" twice : cells A1/A2 with these styles, saved and reloaded; effective values
+            use umya_spreadsheet::*;
+            let mut book = new_file();
+            {
+                let ws = book.get_sheet_by_name_mut("Sheet1").unwrap();
+                for (row, k) in [(1u32, 1usize), (2u32, 2usize)] {
+                    let f: Vec<String> = unhex(&p[k]).split(',').map(|x| x.to_string()).collect();
+                    let c = ws.get_cell_mut((1, row)); c.set_value_string("x");
+                    let st = c.get_style_mut();
+                    if f[0] == "1" { st.get_font_mut().set_bold(true); }
+                    if f[1] == "1" { st.get_alignment_mut().set_horizontal(HorizontalAlignmentValues::Center); }
+                    if f[2] == "1" { st.get_protection_mut().set_locked(false); }
+                    let code = String::from_utf8((0..f[4].len()).step_by(2).map(|i| u8::from_str_radix(&f[4][i..i + 2], 16).unwrap()).collect()).unwrap();
+                    if f[3] == "1" { st.get_number_format_mut().set_format_code("0.00"); } else if f[3] == "2" { st.get_number_format_mut().set_format_code(code); }
+                }
+            }
+            let show = |book: &Spreadsheet| { let ws = book.get_sheet_by_name("Sheet1").unwrap(); (1u32..=2).map(|r| { let st = ws.get_style((1, r));
+                format!("bold={} center={} fmt={} locked={}", st.get_font().map(|f| *f.get_bold()).unwrap_or(false), st.get_alignment().map(|a| a.get_horizontal() == &HorizontalAlignmentValues::Center).unwrap_or(false),
+                    st.get_number_format().map(|n| n.get_format_code().to_string()).unwrap_or("General".into()), st.get_protection().map(|p| *p.get_locked()).unwrap_or(true)) }).collect::<Vec<_>>().join(" | ") };
+            let before = show(&book);
+            let mut buf: Vec<u8> = Vec::new();
+            writer::xlsx::write_writer(&book, &mut buf).unwrap();
+            let back = reader::xlsx::read_reader(std::io::Cursor::new(buf), true).unwrap();
+            vec![hex(&before), hex(&show(&back))]
+        }
+        "declared_numfmt" => {
+            // id code : a package whose styles part declares <numFmt numFmtId=id formatCode=code> and whose cell A1 uses it (the styles part of a
+            // saved workbook is patched), loaded by the real reader; the format code A1 shows
+            use std::io::{Read, Write};
+            let (id, code) = (u(&p[1]), unhex(&p[2]));
+            let mut book = umya_spreadsheet::new_file();
+            { let c = book.get_sheet_by_name_mut("Sheet1").unwrap().get_cell_mut((1, 1)); c.set_value_number(1.5); c.get_style_mut().get_number_format_mut().set_format_code(code.clone()); }
+            let mut buf: Vec<u8> = Vec::new();
+            umya_spreadsheet::writer::xlsx::write_writer(&book, &mut buf).unwrap();
+            let mut zin = zip::ZipArchive::new(std::io::Cursor::new(buf)).unwrap();
+            let mut out = zip::ZipWriter::new(std::io::Cursor::new(Vec::new()));
+            for i in 0..zin.len() {
+                let mut f = zin.by_index(i).unwrap();
+                let name = f.name().to_string();
+                let mut data = Vec::new(); f.read_to_end(&mut data).unwrap();
+                if name == "xl/styles.xml" {
+                    let text = String::from_utf8(data).unwrap();
+                    // the id the library chose is the only 17x id in the part
+                    let own = (176..200).map(|k| k.to_string()).find(|k| text.contains(&format!("numFmtId=\"{}\"", k))).unwrap();
+                    data = text.replace(&format!("numFmtId=\"{}\"", own), &format!("numFmtId=\"{}\"", id)).into_bytes();
+                }
+                out.start_file(name, zip::write::SimpleFileOptions::default()).unwrap();
+                out.write_all(&data).unwrap();
+            }
+            let bytes = out.finish().unwrap().into_inner();
+            let back = umya_spreadsheet::reader::xlsx::read_reader(std::io::Cursor::new(bytes), true).unwrap();
+            vec![hex(back.get_sheet_by_name("Sheet1").unwrap().get_style((1, 1)).get_number_format().map(|f| f.get_format_code()).unwrap_or("General"))]
         }
         "fill_roundtrip" => {
             // "background=..;foreground=.." twice ('-' = absent)
